@@ -3,20 +3,19 @@ import json, os
 _ROOT = os.path.dirname(os.path.dirname(os.path.dirname(os.path.abspath(__file__))))
 
 
-def _f2_known():
-    """F2 (`1 << (8*count)` wraps for count = 8 in fieldInfo.check) is still listed as an open finding."""
+def _known(fid):
     try:
         fs = json.load(open(os.path.join(_ROOT, "known_findings.json"))).get("findings", [])
     except OSError:
         return False
-    return any(f.get("property") == "C09" and f.get("id") == "F2" and f.get("status") == "known" for f in fs)
+    return any(f.get("property") == "C09" and f.get("id") == fid and f.get("status") == "known" for f in fs)
 
 
-# CTV.Props.C09Width8 states `check_spec` for all widths 1..8.  It is false for the unchanged tree at width 8, so while F2
-# is an open (known) finding the module is not an obligation (C09.check_sound for all widths and check_spec_partial for
-# widths <= 7 stand, the harness exhibits the refused 8-byte values on every run).  Once the finding is marked fixed the
-# full theorem is demanded.  VERIF_C09_FULL=1 forces it (used to validate fixes/C09-2.diff on a scratch tree).
-PROPS = ["CTV.Props.C09"] + ([] if (_f2_known() and not os.environ.get("VERIF_C09_FULL")) else ["CTV.Props.C09Width8"])
+# CTV.Props.C09TagWidth (`tag_width`: every width fieldTagToFieldInfo lets through is 1..8) is false for the tree without
+# fixes/C09-5.diff (finding F14).  While F14 is an open (known) finding the module elaborates to nothing (#when) and is not an
+# obligation; the harness exhibits the panic on every run.  Once the finding is marked fixed the theorem is demanded.
+# VERIF_C09_FULL=1 forces it (used to validate the fix on a scratch tree).
+PROPS = ["CTV.Props.C09", "CTV.Props.C09Width8"] + ([] if (_known("F14") and not os.environ.get("VERIF_C09_FULL")) else ["CTV.Props.C09TagWidth"])
 HARNESS = [dict(pkg="./tls/", test="TestVerifC09", timeout=1500)]
 RULE = ("Go types generated with reflect.StructOf from the tag grammar (depth <= 4, variants anywhere after their selector, bounds at each "
         "1..8-byte boundary, plus a corpus of shapes outside the well-formed grammar) x generated values x (valid encodings, truncations, "
